@@ -352,6 +352,7 @@ macro_rules! load_place {
     };
 }
 load_place!(c03_load_place_3000_2, 0x3000u16, 2);
+load_place!(c03_load_place_4000_0, 0x4000u16, 0);
 load_place!(c03_load_place_0_1, 0u16, 1);
 load_place!(c03_load_place_fffe_1, 0xFFFEu16, 1);
 load_place!(c03_load_place_fdff_3, 0xFDFFu16, 3);
